@@ -31,7 +31,7 @@ DECIDES = ('On PacketTransmitter (buffer_count 4; 2 and 8 in the thorough tier),
            'enqueue/dequeue/retire; the transmitter reads the same buffer array that the capture writes, indexed by the '
            'read pointer, and the pointers wrap at the buffer count; (e) ~enable clears bringup_complete, the credit '
            'count, the expected credit, both counters, the three pointers and the retry-pending flag against every other '
-           'writer. ')
+           'writer; the credit, to-send and unacknowledged counters can hold the number of buffers. ')
 NOT_DECIDED = ('the counting invariants over whole histories (credits never exceeding the partner buffers, buffer slots never '
                'overwritten before retirement); an enqueue in the very cycle of an LBAD (the to-send count is loaded without '
                'the new header -- a liveness defect, see the report); ordering of the retransmission relative to the LRTY '
